@@ -121,9 +121,11 @@ class InotifyEmitter(EventEmitter):
         )
 
     def on_thread_stop(self) -> None:
-        if self._inotify:
-            self._inotify.close()
-            self._inotify = None
+        # stop() may run concurrently in several threads (and in the emitter thread itself):
+        # work on a local reference so that nobody dereferences the cleared attribute.
+        inotify, self._inotify = self._inotify, None
+        if inotify:
+            inotify.close()
 
     def queue_events(self, timeout: float, *, full_events: bool = False) -> None:
         # If "full_events" is true, then the method will report unmatched move events as separate events
@@ -132,10 +134,11 @@ class InotifyEmitter(EventEmitter):
             logger.error("InotifyEmitter.queue_events() called when the thread is inactive")
             return
         with self._lock:
-            if self._inotify is None:
+            inotify = self._inotify
+            if inotify is None:
                 logger.error("InotifyEmitter.queue_events() called when the thread is inactive")
                 return
-            event = self._inotify.read_event()
+            event = inotify.read_event()
             if event is None:
                 return
 
